@@ -225,6 +225,19 @@ def explore(func, on_stmt=None, limit=20000, env=None, fact_events=False):
                     p.env[st.targets[0].id] = v
                 else:
                     p.env.pop(st.targets[0].id, None)
+            elif len(st.targets) == 1 and isinstance(
+                    st.targets[0], ast.Tuple) and isinstance(
+                        st.value, ast.Tuple) and len(
+                            st.targets[0].elts) == len(st.value.elts) and all(
+                                isinstance(t, ast.Name)
+                                for t in st.targets[0].elts):
+                # a, b = x, y: the right side is evaluated first
+                vals = [substitute(v, p.env) for v in st.value.elts]
+                for t, v in zip(st.targets[0].elts, vals):
+                    if is_simple_const(v):
+                        p.env[t.id] = v
+                    else:
+                        p.env.pop(t.id, None)
             else:
                 for t in st.targets:
                     kill(p, stores(t))
